@@ -46,6 +46,10 @@ class Facts:
                 self.consts[k["path"]] = k
         self._mir_cache = {}
 
+    def has_feature(self, crate, feature):
+        """Was `crate` compiled with cargo feature `feature` in the analysed configuration?"""
+        return ('feature="%s"' % feature) in (self.crates.get(crate, {}).get("cfg") or [])
+
     # ---- bodies -------------------------------------------------------------------------------
     def body(self, path):
         return self.bodies.get(path)
